@@ -224,6 +224,35 @@ fn main() {
             if back != expect { found("get_path-after-set_path", format!("{}: get_path {:?}, expected {:?}", ctx, back, expect)); }
         } }
     }
+    if which == "all" || which == "C19" {
+        // the generic coap-message views (0.3 and 0.2): code, payload, options in ascending number order
+        let mut p = Packet::new();
+        p.header.code = coap_lite::MessageClass::Response(coap_lite::ResponseType::Content);
+        p.payload = vec![1, 2, 3];
+        for (n, v) in [(11u16, b"b".to_vec()), (3, b"h".to_vec()), (11, b"a".to_vec()), (258, vec![]), (11, b"c".to_vec()), (6, vec![0])] { p.add_option(CoapOption::from(n), v); }
+        let want: Vec<(u16, Vec<u8>)> = vec![(3, b"h".to_vec()), (6, vec![0]), (11, b"b".to_vec()), (11, b"a".to_vec()), (11, b"c".to_vec()), (258, vec![])];
+        {
+            use coap_message_0_3::{MessageOption, MinimalWritableMessage, ReadableMessage};
+            let got: Vec<(u16, Vec<u8>)> = ReadableMessage::options(&p).map(|o| (o.number(), o.value().to_vec())).collect();
+            if got != want { found("coap-message-0.3-options", format!("{:?}", got)); }
+            if ReadableMessage::payload(&p) != [1, 2, 3] || ReadableMessage::code(&p) != p.header.code { found("coap-message-0.3-code-payload", String::new()); }
+            let mut q = Packet::new();
+            MinimalWritableMessage::set_code(&mut q, ReadableMessage::code(&p));
+            for o in ReadableMessage::options(&p) { MinimalWritableMessage::add_option(&mut q, CoapOption::from(o.number()), o.value()).unwrap(); }
+            MinimalWritableMessage::set_payload(&mut q, ReadableMessage::payload(&p)).unwrap();
+            if q.header.code != p.header.code || q.payload != p.payload || ReadableMessage::options(&q).map(|o| (o.number(), o.value().to_vec())).collect::<Vec<_>>() != want { found("coap-message-0.3-copy", String::new()); }
+        }
+        {
+            use coap_message_0_2::{MessageOption, MinimalWritableMessage, ReadableMessage};
+            let got: Vec<(u16, Vec<u8>)> = ReadableMessage::options(&p).map(|o| (o.number(), o.value().to_vec())).collect();
+            if got != want { found("coap-message-0.2-options", format!("{:?}", got)); }
+            let mut q = Packet::new();
+            MinimalWritableMessage::set_code(&mut q, ReadableMessage::code(&p));
+            for o in ReadableMessage::options(&p) { MinimalWritableMessage::add_option(&mut q, CoapOption::from(o.number()), o.value()); }
+            MinimalWritableMessage::set_payload(&mut q, ReadableMessage::payload(&p));
+            if q.header.code != p.header.code || q.payload != p.payload { found("coap-message-0.2-copy", String::new()); }
+        }
+    }
     if which == "all" || which == "C06" {
         for s in strings(&["a", "\u{e9}", "\u{1F600}", "/"], 4) {
             let raw: Vec<u8> = OptionValueString(s.clone()).into();
